@@ -4,6 +4,9 @@ import json, os, shutil, sys
 V = os.path.dirname(os.path.dirname(os.path.abspath(__file__)))
 roots = [("/tmp/seed_out", ["/tmp/seed_confirm/results.json", "/tmp/seed_confirm2/results.json"]),
          ("/tmp/seed_out2", ["/tmp/seed_confirm2/results.json", "/tmp/seed_confirm3/results.json"])]
+if len(sys.argv) > 1:
+    # collect_seeds.py <detection root> [<root whose results.json holds the --confirm data>]  (later rounds)
+    roots = [(sys.argv[1], [os.path.join(a, "results.json") for a in sys.argv[1:]])]
 for root, confs in roots:
     if not os.path.exists(os.path.join(root, "results.json")):
         continue
